@@ -1412,10 +1412,16 @@ def take(a, idx, axis=None):
     return _arr(a)[idx]
 
 
-def repeat(a, n):
-    if isinstance(a, SArray):
-        return SArray([x for x in a.items for _ in range(int(n))], a.dtype)
-    return SArray([a] * int(n))
+def repeat(a, n, axis=None):
+    a = _arr(a) if isinstance(a, (SArray, list, tuple, _np.ndarray)) else SArray([a])
+    if isinstance(n, (SArray, list, tuple, _np.ndarray)):
+        counts = [int(k) for k in (n.items if isinstance(n, SArray) else n)]
+        if len(counts) == 1:
+            counts = counts * len(a.items)
+        if len(counts) != len(a.items):
+            raise ValueError("operands could not be broadcast together with shape (%d,) (%d,)" % (len(a.items), len(counts)))
+        return SArray([x for x, k in zip(a.items, counts) for _ in range(k)], a.dtype)
+    return SArray([x for x in a.items for _ in range(int(n))], a.dtype)
 
 
 def diff(a):
@@ -1624,3 +1630,61 @@ def sqrt(a):
     if isinstance(a, (SArray, Opaque)):
         return Opaque(a.shape)
     raise Unsupported("sqrt of a scalar")
+
+
+# comparison / logical ufuncs by name
+def equal(a, b):
+    return _arr(a) == b if isinstance(a, (SArray, list, tuple)) or isinstance(b, (SArray, list, tuple)) else _eq(a, b)
+
+
+def not_equal(a, b):
+    return _arr(a) != b if isinstance(a, (SArray, list, tuple)) or isinstance(b, (SArray, list, tuple)) else s_not(_eq(a, b))
+
+
+def greater(a, b):
+    return a > b
+
+
+def greater_equal(a, b):
+    return a >= b
+
+
+def less(a, b):
+    return a < b
+
+
+def less_equal(a, b):
+    return a <= b
+
+
+def logical_or(a, b):
+    return a | b
+
+
+def logical_xor(a, b):
+    return a ^ b
+
+
+def add(a, b):
+    return a + b
+
+
+def subtract(a, b):
+    return a - b
+
+
+def multiply(a, b):
+    return a * b
+
+
+def negative(a):
+    return -a
+
+
+def fromiter(it, dtype=None, count=-1):
+    return SArray(list(it), _dt(dtype) if dtype is not None else None)
+
+
+def asarray(a, dtype=None, **kw):  # noqa: F811
+    r = array(a)
+    return r.astype(dtype) if dtype is not None and isinstance(r, SArray) else r
